@@ -106,6 +106,8 @@ def check_text(case, ev):
         if ta != tb:
             return Finding("structure/trailing-whitespace-or-terminator-changed:%s" % ("unusual-ws" if any(w in ta for w in UNUSUAL_WS[3:]) else "cr" if "\r" in ta else "spaces-tabs"), "features %s: %r -> %r" % (feats, a, b), case)
         ln = case["lines"][idx] if idx < len(case["lines"]) else None
+        if ln is not None and "secret" in ln and ln.get("scrub"):
+            continue  # whole-line scrub forms may take the text in front of the keyword with them
         if ln is not None and "secret" in ln:
             want = "".join(t + " " for t in ln.get("prefix", []))
             if not b.strip().startswith(want.rstrip(" ")):
@@ -113,6 +115,14 @@ def check_text(case, ev):
             for tok in ln.get("inner", []):
                 if tok not in b.split():
                     return Finding("tokens/kept-text-inside-secret-line-changed", "features %s: token %r of %r is not in %r" % (feats, tok, a, b), case)
+            if ln.get("strict"):
+                # tokens of a positional secret line other than the secret itself are not sensitive
+                # (words / numbers / addresses inside them may change if those features are on)
+                ta_, tb_ = a.split(), b.split()
+                k = ln["strict"]["slot_token"] + len(ln.get("prefix", []))
+                plain_only = not (ip or words or asn)
+                if len(ta_) != len(tb_) or (plain_only and any(x != y for i_, (x, y) in enumerate(zip(ta_, tb_)) if i_ != k)):
+                    return Finding("tokens/non-secret-tokens-of-secret-line-changed", "features %s: %r -> %r" % (feats, a, b), case)
             continue
         if ln is None:
             continue
@@ -174,6 +184,7 @@ REPLAY = {"text": check_text}
 _lead = st.one_of(st.sampled_from(["", "", " ", "  ", "    ", "\t"]), st.sampled_from(UNUSUAL_WS), st.lists(st.sampled_from([" ", "\t", "\xa0", "\x0c", " ", "\x1c"]), max_size=3).map("".join))
 _sep = st.one_of(st.sampled_from([" ", " ", " ", "  ", "\t"]), st.sampled_from(UNUSUAL_WS[:6]))
 _POS1 = [f for f in S.POS_FORMS if f.slots == 1]
+_SCRUB = [f for f in S.FORMS if f.mode in ("scrub", "either")]
 
 
 @st.composite
@@ -184,23 +195,36 @@ def _case(draw):
     feats = draw(st.lists(st.booleans(), min_size=4, max_size=4))
     lines = []
     masks_seen = []
+    heavy = draw(st.integers(0, 2)) == 0
     for _ in range(draw(st.integers(0, 12) if draw(st.booleans()) else st.integers(0, 25))):
         eol = draw(st.sampled_from(["\n", "\n", "\n", "\r\n"]))
         k = draw(st.integers(0, 9))
+        if heavy and k >= 4:
+            k = 1  # secret-heavy text: most lines are recognised secret lines, in every order
         if k == 0:
             lines.append({"tokens": [], "seps": [], "lead": draw(st.sampled_from(["", "", " ", "\t", "  "])), "trail": "", "eol": eol})
             continue
         if k == 1:
-            form = draw(st.sampled_from(_POS1))
+            form = draw(st.sampled_from(_POS1 if draw(st.integers(0, 3)) else _SCRUB))
             v = draw(S.secret_for(form))[1]
-            s, _ = S.render(form, draw(st.integers(0, 20)), draw(st.integers(0, 5)), [v], ("", ""), "", "")
+            s, spans = S.render(form, draw(st.integers(0, 20)), draw(st.integers(0, 5)), [v], ("", ""), "", "")
+            strict = None
+            if form.mode == "pos" and not any(ch.isspace() for ch in v):
+                st_ = s.strip()
+                off = len(s) - len(s.lstrip())
+                strict = {"slot_token": len(st_[: spans[0][0] - off].split())}
+                toks_ = st_.split()
+                if strict["slot_token"] >= len(toks_) or v not in toks_[strict["slot_token"]]:
+                    strict = None
             inner = []
             for ph in ("Someone", "Somegroup", "Someview", "Foo", "PEERS", "example.com"):
                 if ph in s and draw(st.booleans()):
                     tok = draw(st.sampled_from(["dom\\user", "a\\1b", "grp\\g<1>", "x\\", "user.name", "U$er", "(adm)", "né", "\\u0041"]))
                     s = s.replace(ph, tok)
                     inner.append(tok)
-            lines.append({"secret": s.strip(), "inner": inner, "prefix": draw(st.lists(st.sampled_from(VOCAB), max_size=2)), "lead": draw(_lead), "trail": draw(st.sampled_from(["", "", " ", "\t", "\xa0"])), "eol": eol})
+            if inner:
+                strict = None
+            lines.append({"secret": s.strip(), "scrub": form.mode != "pos", "strict": strict, "inner": inner, "prefix": draw(st.lists(st.sampled_from(VOCAB), max_size=2)), "lead": draw(_lead), "trail": draw(st.sampled_from(["", "", " ", "\t", "\xa0"])), "eol": eol})
             continue
         toks = []
         for _t in range(draw(st.integers(1, 7))):
